@@ -7,7 +7,7 @@ checked by evaluation; everything that indexes them is verified against it.
 """
 from pyvc.api import *
 from contracts.c02_common import *
-from contracts.c02_stream import FRAME_IO, IO_POST  # noqa: F401
+from contracts.c02_stream import lcv_ok, FRAME_IO, IO_POST  # noqa: F401
 from contracts.c02_sequence_header import coding_params_known, hdr_known  # noqa: F401
 from contracts.c02_picture import ld_code, hq_code, qm_shape, hi3, tp_known, wavelet_known, slices_known  # noqa: F401
 from contracts import c13_slice_sizes, c12_quantization  # noqa: F401  (transparent arithmetic helpers)
@@ -98,7 +98,7 @@ def slice_ctx(state):
             and (ld_code(state["parse_code"]) or hq_code(state["parse_code"]))
             and wavelet_known(state) and slices_known(state) and coding_params_known(state) and transforms_ok(state)
             and has(state, "quant_matrix") and qm_shape(state["quant_matrix"], state["dwt_depth"], state["dwt_depth_ho"])
-            and has(state, "_level_constrained_values"))
+            and lcv_ok(state))
 
 
 @inline
@@ -220,7 +220,7 @@ LOOP_INV = IO_POST + ["slice_ctx(state)", "quantizer_ok(state)", 'has(state, "bi
 class _lds:
     args = {"state": STATE, "sx": "int", "sy": "int"}
     requires = SLICE_PRE + ['ld_code(state["parse_code"])']
-    modifies = FRAME_IOB + ['state["_level_constrained_values"]', 'state["quantizer"]', "all_grids()"]
+    modifies = FRAME_IOB + ['state["_level_constrained_values"]', "state.g_lcv_level", 'state["quantizer"]', "all_grids()"]
     raises = {"ConformanceError": None}
     ensures = IO_POST + ["slice_ctx(state)"]
     invariants = {k: LOOP_INV for k in range(1, 13)}
@@ -230,7 +230,7 @@ class _lds:
 class _hqs:
     args = {"state": STATE, "sx": "int", "sy": "int"}
     requires = SLICE_PRE + ['hq_code(state["parse_code"])']
-    modifies = FRAME_IOB + ['state["_level_constrained_values"]', 'state["quantizer"]', "all_grids()"]
+    modifies = FRAME_IOB + ['state["_level_constrained_values"]', "state.g_lcv_level", 'state["quantizer"]', "all_grids()"]
     raises = {"ConformanceError": None}
     ensures = IO_POST + ["slice_ctx(state)"]
     invariants = {k: LOOP_INV for k in range(1, 8)}
@@ -240,7 +240,7 @@ class _hqs:
 class _slice:
     args = {"state": STATE, "sx": "int", "sy": "int"}
     requires = SLICE_PRE
-    modifies = FRAME_IOB + ['state["_level_constrained_values"]', 'state["quantizer"]', "all_grids()"]
+    modifies = FRAME_IOB + ['state["_level_constrained_values"]', "state.g_lcv_level", 'state["quantizer"]', "all_grids()"]
     raises = {"ConformanceError": None}
     ensures = IO_POST + ["slice_ctx(state)"]
 
@@ -250,8 +250,11 @@ class _tdata:
     args = {"state": STATE}
     requires = ["dinv(state)", 'not has(state, "_recorded_bytes")', "hdr_known(state)",
                 'has(state, "parse_code") and (ld_code(state["parse_code"]) or hq_code(state["parse_code"]))', "tp_known(state)"]
-    modifies = FRAME_IOB + ['state["_level_constrained_values"]', 'state["quantizer"]', "all_grids()",
+    modifies = FRAME_IOB + ['state["_level_constrained_values"]', "state.g_lcv_level", 'state["quantizer"]', "all_grids()",
                             'state["y_transform"]', 'state["c1_transform"]', 'state["c2_transform"]']
     raises = {"ConformanceError": None}
     ensures = IO_POST + ["slice_ctx(state)", "hdr_known(state)", "tp_known(state)"]
     invariants = {1: IO_POST + ["slice_ctx(state)"], 2: IO_POST + ["slice_ctx(state)"]}
+
+
+from contracts.c02_corpus import MONITOR_DRIVER  # noqa: E402,F401  (native fallback: run-time monitoring over corpus streams)
